@@ -148,9 +148,20 @@ def header(kind, rid, case_id, mate, index_seq):
         return f'@NS500413:32:H14TKBGXX:2:11101:{rid}:{case_id}'
     if kind == 'scmo':
         return f'@Is:NS500413;RN:32;Fc:H14TKBGXX;La:2;Ti:11101;CX:{rid};CY:{case_id};Fi:N;CN:0;aa:ATCACG;aA:ATCACG;aI:1'
+    if kind == 'scmo_umi':
+        # a read that went through the demultiplexer before: its name already carries a UMI and the UMI qualities in the header-safe code
+        return (f'@Is:NS500413;RN:32;Fc:H14TKBGXX;La:2;Ti:11101;CX:{rid};CY:{case_id};Fi:N;CN:0;aa:ATCACG;aA:ATCACG;aI:1;'
+                f'RX:{requeued_umi(rid)[0]};RQ:{hsq(requeued_umi(rid)[1])}')
     if kind == '3dec':
         return f'@Cluster_s_{case_id}_{rid}_{mate + 1}'
     raise ValueError(kind)
+
+
+def requeued_umi(rid):
+    """(bases, phred+33 qualities) of the UMI an earlier demultiplexing run put into the name of read `rid`"""
+    bases = ''.join('ACGT'[(rid * 5 + k * 3) % 4] for k in range(3))
+    quals = ''.join(chr(33 + (rid * 7 + k * 13) % 42) for k in range(3))
+    return bases, quals
 
 
 def make_pair(r, lay, whitelist, kind, rid, case_id, hdr_kind='illumina', index_seq='ATCACG', qmax=93, p_n=0.02,
